@@ -774,11 +774,12 @@ pub fn eval_recursion<'a>(
     let recursion = (Expr::Recursion(ident.clone()), AnnRef::default());
     scope.insert(rec.binding().ident(), recursion);
     ctx.push_scope(scope);
-    let rhs = eval_any(ctx, rec.rhs(), ann)?;
+    let rhs = eval_any(ctx, rec.rhs(), ann.clone())?;
     ctx.pop_scope();
     ctx.refs.insert(ident.clone(), Some(rhs.clone()));
     let expr = Expr::Reference(ident, rhs.into());
-    Ok((expr, AnnRef::default()))
+    // The annotations of the use site stay with the reference (e.g. `required`).
+    Ok((expr, ann))
 }
 
 pub fn eval_any<'a>(
